@@ -534,6 +534,8 @@ class Interp:
         return a is b
 
     def contains(self, container, item):
+        if hasattr(item, "contained_in") and isinstance(container, (ListObj, DictObj)):
+            return item.contained_in(self, container)
         if isinstance(container, (ListObj, SetObj)):
             r = False
             for x in container.items:
@@ -678,7 +680,7 @@ class Interp:
             if a is NAN:
                 return NAN
             if isinstance(a, Num):
-                return Num(-a.v, a.tag)
+                return Num(-a.v, a.tag, getattr(a, "rounded", False))
             if isinstance(a, (int, float, Fraction)) and not isinstance(a, bool):
                 return -a
             if hasattr(a, "neg"):
@@ -776,6 +778,8 @@ class Interp:
             return BoundMethod(o.self_obj, found)
         if isinstance(o, (ListObj, DictObj, SetObj, str, IdStr, SymList, SymDict)) or hasattr(o, "method"):
             return BoundBuiltin(o, name)
+        if hasattr(o, "getitem") and hasattr(o, "length"):
+            raise OutOfSubset(f"str.{name} on a symbolic string")
         if isinstance(o, FuncVal) and name == "__doc__":
             return None
         if isinstance(o, Poison):
@@ -1825,10 +1829,10 @@ class Interp:
                 return int(v)
             if isinstance(v, Num):
                 if z3.is_int(v.v):
-                    return Num(v.v, TAG_PYINT)
+                    return Num(v.v, TAG_PYINT, getattr(v, "rounded", False))
                 # truncation toward zero
                 t = z3.If(v.v >= 0, z3.ToInt(v.v), -z3.ToInt(-v.v))
-                return Num(t, TAG_PYINT)
+                return Num(t, TAG_PYINT, getattr(v, "rounded", False))
             if v is NAN:
                 I.raise_("ValueError", "cannot convert float NaN to integer", implicit=True)
             return I.call_external("py.int", [v], {})
@@ -1846,7 +1850,7 @@ class Interp:
             if isinstance(v, (int, float, Fraction)) and not isinstance(v, bool):
                 return float(v) if not isinstance(v, Fraction) else v
             if isinstance(v, Num):
-                return Num(zreal(v), TAG_PYFLOAT)
+                return Num(zreal(v), TAG_PYFLOAT, getattr(v, "rounded", False))
             if v is NAN:
                 return NAN
             return I.call_external("py.float", [v], {})
